@@ -754,6 +754,33 @@ def numpy_unit(ctx):
 
 
 # ----------------------------------------------------------------------------------------------------------------------
+def large_batch_oracle(ctx, uo):
+    """One key per output element also for LARGE batches (more than 2**16 elements in one call): no repeated draws.  Cheap
+    distributions only.  (Seeded change C06c shared keys between blocks of 65536 elements.)"""
+    import jax.numpy as jnp
+    import jax.random as jr
+    from flowjax.bijections import AdditiveCondition
+    from flowjax.distributions import Normal, Transformed
+
+    key = jr.PRNGKey(int(ctx.rng.integers(0, 2**31)))
+    cases = [("Normal() sample_shape (70001,)", Normal(), (70001,), None),
+             ("Transformed(Normal(), AdditiveCondition) sample_shape (300,) x condition batch (250,)",
+              Transformed(Normal(), AdditiveCondition(lambda c: c, (), ())), (300,), jnp.zeros(250))]
+    for name, d, ss, c in cases:
+        for meth in ("sample", "sample_and_log_prob"):
+            out = d.sample(key, ss, condition=c) if meth == "sample" else d.sample_and_log_prob(key, ss, condition=c)[0]
+            out = np.asarray(out, dtype=float).ravel()
+            n_distinct = len(np.unique(out))
+            uo.count(("large-batch", name, meth), nontrivial=True, tag="large-batch")
+            if n_distinct != out.size:
+                first = int(np.argmax(np.diff(np.sort(out)) == 0))
+                ctx.violation(sig=f"large-batch:{meth}:same-draw", what=f"{name}: {meth} returned {out.size} elements of which only {n_distinct} are distinct "
+                              f"(a continuous law: repeated values mean batch elements shared a key)", found_input=True,
+                              case=dict(unit="large-batch", dist=name, method=meth, sample_shape=list(ss), cond_batch=None if c is None else list(c.shape),
+                                        key=np.asarray(key).tolist()), unit=uo.name, expected=out.size, observed=n_distinct,
+                              broken="oracle (one key per output element) / C06_keys_never_shared")
+
+
 def run(ctx):
     zoo_seed = int(ctx.seed)
     numpy_unit(ctx)
@@ -806,6 +833,7 @@ def run(ctx):
         "legacy uint32[2] PRNG keys (the signature's (2) core dimension); typed keys are outside the model",
         "empty sample_shape/condition batch (size 0): sample raises (modelled as Err EReshape); the oracle treats it as outside the statement",
     ]
+    large_batch_oracle(ctx, uo)
 
 
 def replay(ctx, rep):
